@@ -454,6 +454,10 @@ func c06Run(c c06Case) (res c06Result) {
 		for k := 0; k < c.Grow[i]; k++ {
 			chain.Extend(c06Logs(int(c06Seq % 2)))
 		}
+		// a canonical chain keeps growing: the new fork soon becomes longer than the one it replaced
+		for chain.Tip() <= maxTip {
+			chain.Extend(nil)
+		}
 		setPtrs()
 	}
 	// a canonical chain keeps growing: the final chain is at least as long as any fork the node has seen
